@@ -158,6 +158,25 @@ package environment
 //@   property C10
 //@   ensures env != nil && err != nil ==> env.currentRunNumber == 0
 
+// C10 (the run number brackets the run): STOP_ACTIVITY itself never touches the run number - a STOP that fails is
+// cancelled and the run goes on; the number is dropped by after_event once every after_STOP hook has run.
+//@ func (t StopActivityTransition) do(env *Environment) (err error)
+//@   property C10
+//@   on store environment.Environment.currentRunNumber : assert false
+
+// C08 (calls are awaited at their declared await point): both passes over the weights of a moment always run - a pass
+// with no hook to START may still have calls to AWAIT (started at an earlier moment, awaited at a weight of this one).
+//@ func (env *Environment) handleHooksWithNegativeWeights(workflow workflow.Role, trigger string) (err error)
+//@   property C08
+//@   ghostvar n int = 0
+//@   on call (*Environment).handleHooks : assert arg1 == workflow && arg2 == trigger ; n = n + 1
+//@   ensures n == 1
+//@ func (env *Environment) handleHooksWithPositiveWeights(workflow workflow.Role, trigger string) (err error)
+//@   property C08
+//@   ghostvar n int = 0
+//@   on call (*Environment).handleHooks : assert arg1 == workflow && arg2 == trigger ; n = n + 1
+//@   ensures n == 1
+
 // The three hook entry points select weights by sign: negative, non-negative, all.
 //@ closure (*Environment).handleHooksWithNegativeWeights #1
 //@   property C08
